@@ -598,6 +598,40 @@ def prf_wiring(ctx, facts):
                     mkop = ops.get("match_key")
                     okk = mkop is not None and mkop[0] == "arg" and mkop[:2] == ops["value"][:2] and mkop[:3] != ops["value"][:3]
                     ok5 = okv and same and okk
+                    if not ok5 and b.kind == "Closure":
+                        # the report may be built one closure deeper (`mk.map(|prf| PrfHybridReport { match_key: prf, value: input.value, .. })`):
+                        # value / breakdown_key are then captured fields of the zipped pair's second component and the
+                        # match key is this closure's own parameter, i.e. the Ok payload of the pair's first component
+                        par_ = facts.bodies.get(b.path.rsplit("::{closure", 1)[0])
+                        if par_ is not None:
+                            def _cap(e_):
+                                e_ = flow.strip_casts(e_)
+                                if e_[0] != "upvar":
+                                    return None
+                                for _bb, _ix, s2 in par_.iter_assigns():
+                                    r2 = s2["r"]
+                                    if r2["k"] == "agg" and r2.get("def") == b.path:
+                                        for i2, o2 in enumerate(r2["ops"]):
+                                            if flow.upvar_name(b, i2) == e_[1]:
+                                                return F.op_place(o2)
+                                return None
+                            pv, pk = _cap(ops.get("value")), _cap(ops.get("breakdown_key"))
+                            fieldname = lambda pl: [x[2] for x in pl[1:] if isinstance(x, list) and x[0] == "f" and len(x) > 2 and x[2]][-1:] if pl else []
+                            same_base = pv is not None and pk is not None and pv[:-1] == pk[:-1]
+                            recv_ok = False
+                            for _bb, t2 in par_.calls():
+                                if re.search(r"Result::<T, E>::map$", F.callee(t2)[0] or "") and len(t2["args"]) == 2:
+                                    cl2 = flow.expr_of(par_, t2["args"][1], max_depth=4)
+                                    if cl2[0] == "agg" and isinstance(cl2[1], tuple) and cl2[1][1] == b.path:
+                                        rp = F.op_place(t2["args"][0])
+                                        recv_e = flow.strip_casts(flow.expr_of(par_, t2["args"][0], max_depth=8))
+                                        base_v = flow.strip_casts(flow.expr_of(par_, {"cp": pv[:1]}, max_depth=8)) if pv else None
+                                        # receiver and the captured fields come from two different components of the same pair parameter
+                                        recv_ok = recv_e[:2] == ("arg", 2) and base_v is not None and base_v[:2] == ("arg", 2) and recv_e != base_v
+                            mkop2 = flow.strip_casts(ops.get("match_key", ("?",)))
+                            ok5 = same_base and fieldname(pv) == ["value"] and fieldname(pk) == ["breakdown_key"] and mkop2 == ("arg", 2) and recv_ok
+                            if ok5:
+                                why5 = "match_key := PRF value, value := input.value, breakdown_key := input.breakdown_key of the zipped pair"
                     why5 = "match_key := PRF value, value := input.value, breakdown_key := input.breakdown_key of the zipped pair" if ok5 else f"PrfHybridReport fields are filled from {dict((n, str(v)[:40]) for n, v in ops.items())}: a field is taken from the wrong source"
                     site5 = site_of(b, bb, idx)
         ctx.ob("WIRE-prf", "report-fields", ok5, why5, site5)
